@@ -11,6 +11,9 @@ CHECKS = {
  "C09": ("exploration", "shadow-model monitor over the real PiecePicker driven by a transcription of the torrent's event handlers on PRNG event histories",
          "Drives the real picker with thousands of PRNG histories (have/bitfield/allowed-fast/choke/unchoke/snub/disconnect/complete/hash-fail/web-seed pick, advance, stop-at, steal, close) in the call order the torrent loop uses and compares a shadow model after every operation: pick legality, one download per peer, end-game limit, web-seed range disjointness, Available(), sequential lowest-index rule.",
          "Legality of operation orders is a transcription of torrent/*.go handlers; sequential rule asserted only when no web-seed download is active and every file-edge piece is taken, with granted allowed-fast pieces allowed to come first (the client's documented ladder).", "4/C09"),
+ "C11": ("exploration", "reference-codec monitor: bytes emitted by the real peerwriter/btconn compared with an independent encoder; fragmenting pipe into the client's reader; upload counter conservation",
+         "Every byte the real writer emits for PRNG message sequences (all kinds, boundary field values) must equal an independent BEP 3/6/9/10/11 reference encoding; the same stream, re-fragmented by 5 patterns, must come out of the client's own reader as identical messages; sum of BlockUploaded equals piece payload bytes on the wire; handshake bytes via Dial/Accept equal the 68-byte layout.",
+         "Reference codec written from the BEPs; bencode dictionaries expected in canonical key order; queue-policy transformations of the writer (reject on overflow/duplicate, choke cancelling queued pieces) are excluded from the generated sequences.", "4/C11"),
 }
 PENDING = {}
 props = [json.loads(l) for l in open(os.path.join(V, 'properties.jsonl'))]
